@@ -1056,6 +1056,16 @@ class FnTranslator:
         if isinstance(s, ast.Return):
             if s.value is None:
                 raise Refuse('bare return')
+            rf = getattr(self, 'row_filter', None)
+            if rf and ret == 'B' and isinstance(s.value, ast.Name) and s.value.id == rf:
+                return 'true'                      # [loop ties C15] spec key row_filter=<table name>: `return table` keeps every row
+            if rf and ret == 'B' and isinstance(s.value, ast.Subscript) and isinstance(s.value.value, ast.Name) \
+                    and s.value.value.id == rf:
+                # [loop ties C15] `return table[mask]` keeps exactly the rows whose mask bit is set (pandas boolean indexing)
+                m = self.expr(s.value.slice, env)
+                if m[1] != 'B':
+                    raise Refuse('%s: %s[...] by a non-mask' % (self.rel, rf))
+                return m[0]
             if not isinstance(ret, str):
                 if not isinstance(s.value, ast.Tuple) or len(s.value.elts) != len(ret):
                     raise Refuse('%s: a %d-tuple is expected as the result' % (self.rel, len(ret)))
@@ -1115,15 +1125,24 @@ class FnTranslator:
         if isinstance(s, ast.AugAssign) and isinstance(s.target, ast.Name) and isinstance(s.op, (ast.Sub, ast.Add, ast.Mult)):
             binop = ast.BinOp(left=ast.Name(id=s.target.id, ctx=ast.Load()), op=s.op, right=s.value)
             return self.block([ast.Assign(targets=[ast.Name(id=s.target.id, ctx=ast.Store())], value=binop)] + rest, env, ret)
-        if isinstance(s, ast.If) and not s.orelse and isinstance(s.test, ast.Compare) and len(s.test.ops) == 1 \
-                and isinstance(s.test.ops[0], ast.Is) and isinstance(s.test.comparators[0], ast.Constant) \
+        if isinstance(s, ast.If) and isinstance(s.test, ast.Compare) and len(s.test.ops) == 1 \
+                and isinstance(s.test.ops[0], (ast.Is, ast.IsNot)) and isinstance(s.test.comparators[0], ast.Constant) \
                 and s.test.comparators[0].value is None and isinstance(s.test.left, ast.Name) \
                 and env.get(s.test.left.id, ('', ''))[1] == 'OB':
-            # [loop ties C15/C05] the two narrowing statements on an optional boolean x:
+            # [loop ties C15/C05] narrowing statements on an optional boolean x:
             #   if x is None: x = <default>     from here on x is a plain boolean (the default, a truth value, when x was None)
             #   if x is None: <always leaves>   the rest runs only when x is not None: there x is its content
+            #   if x is None: A else: B  /  if x is not None: A else: B   (general: the continuation is translated once per
+            #                                   side; on the not-None side x is its content)
             name = s.test.left.id
             inner = self.new(name)
+            if isinstance(s.test.ops[0], ast.IsNot) or s.orelse:
+                none_side, some_side = (s.orelse, s.body) if isinstance(s.test.ops[0], ast.IsNot) else (s.body, s.orelse)
+                env2 = dict(env)
+                env2[name] = (inner, 'B')
+                return '(match %s with\n   | None => %s\n   | Some %s => %s end)' % (
+                    env[name][0], self.block(list(none_side or []) + rest, env, ret), inner,
+                    self.block(list(some_side or []) + rest, env2, ret))
             if len(s.body) == 1 and isinstance(s.body[0], ast.Assign) and self.target_key(s.body[0].targets[0]) == name:
                 d = self.expr(s.body[0].value, env)
                 if d[1] != 'B':
@@ -1138,7 +1157,10 @@ class FnTranslator:
                 env2[name] = (inner, 'B')
                 return '(match %s with\n   | None => %s\n   | Some %s => %s end)' % (
                     env[name][0], self.block(s.body, env, ret), inner, self.block(rest, env2, ret))
-            raise Refuse('%s: `if %s is None:` on an optional boolean that neither assigns its default nor leaves' % (self.rel, name))
+            env2 = dict(env)
+            env2[name] = (inner, 'B')
+            return '(match %s with\n   | None => %s\n   | Some %s => %s end)' % (
+                env[name][0], self.block(list(s.body) + rest, env, ret), inner, self.block(rest, env2, ret))
         if isinstance(s, ast.If) and not s.orelse and len(s.body) == 1 and isinstance(s.body[0], ast.Assign) \
                 and isinstance(s.test, ast.Compare) and len(s.test.ops) == 1 and isinstance(s.test.ops[0], ast.Is) \
                 and isinstance(s.test.comparators[0], ast.Constant) and s.test.comparators[0].value is None \
@@ -1606,6 +1628,7 @@ class FnTranslator:
         self.element = sp.get('element')             # [loop ties C07/C14] dict(index=<param key>, length=<param key>)
         self.attr_store_ok = tuple(sp.get('attr_stores', ()))
         self.tries = sp.get('tries')                 # [loop ties C15] see try_stmt
+        self.row_filter = sp.get('row_filter')       # [loop ties C15] see block(), Return
         for nm in self.attr_store_ok:
             for x in ast.walk(fnode):
                 if isinstance(x, ast.Assign) and isinstance(x.value, ast.Name) and (
@@ -1671,6 +1694,17 @@ class FnTranslator:
             stmts = stmts + [end]
             rty = [t for _, t in self.loop_carried] + (['B'] if self.loop_has_break else [])
             sp = dict(sp, ret=(rty if len(rty) > 1 else rty[0]))
+        if sp.get('opaque') and not loop:
+            # [loop ties C15] `opaque=` ranges in a whole function / a fragment (as in a loop iteration: the range is replaced by
+            # its declared effect); what counts as "used outside the range" includes the fragment's `returns` expressions
+            self.opaque_extra = ' '.join(sp.get('returns') or [])
+            whole = ast.unparse(ast.Module(body=list(stmts), type_ignores=[]))
+            for oq in sp['opaque']:
+                nb = self.replace_opaque(stmts, oq, whole)
+                if nb is stmts:
+                    raise Refuse('%s.%s: opaque range %r .. %r not found' % (self.rel, sp['name'], oq['first'], oq['last']))
+                stmts = nb
+            self.opaque_extra = ''
         rets = sp.get('returns')
         if rets:
             tup = ast.Tuple(elts=[ast.parse(r, mode='eval').body for r in rets], ctx=ast.Load()) if len(rets) > 1 \
@@ -1701,7 +1735,7 @@ class FnTranslator:
                         if outside is None:
                             # the range sits in a nested block: compare line by line
                             outside = '\n'.join(l for l in whole.split('\n') if l.strip() not in {x.strip() for x in rtext.split('\n')})
-                        outside += ' ' + ' '.join(c for c, _ in (self.loop_carried or []))
+                        outside += ' ' + ' '.join(c for c, _ in (self.loop_carried or [])) + ' ' + getattr(self, 'opaque_extra', '')
                         declared = {nm for nm, _ in oq.get('assigns', [])}
                         import re as _re
                         for x in ast.walk(mod):
